@@ -47,8 +47,8 @@ func init() {
 		Doc: "acquire before access, per constructor: NewHandlerForUpdate lock ≺ flock-open and lock ≺ temp; NewHandlerForRead rlock ≺ open; NewHandlerForCreate lock ≺ exclusive create — each later step executes only where the earlier one is known to have succeeded; Handler.fp is assigned only the descriptor of a successful open; a success return is dominated by the success of every required step",
 		Run: ruleLock4})
 	Register(&Rule{ID: "R-LOCK-5", Props: []string{"C09", "C19"}, Floor: 10,
-		Doc:      "bounded retry: every cycle through a call that can create a control file crosses a select on ctx.Done() whose done edge leaves the loop and returns *TimeoutError/*ContextCanceled/*ContextDone; every context handed to a retrying callee by a Handler constructor is result #0 of GetTimeoutContext, which returns a context with a deadline (or an already cancelled one) on every path; ParseError and ConvertFileHandlerError map the timeout types to the lock-timeout error",
-		Controls: []string{"CtlRetryForever"},
+		Doc:      "bounded retry: every cycle through a call that can create a control file crosses a select on ctx.Done() — directly, or as the call of a helper that waits on such a select on every path and returns a non-nil error of those types when the context is done, the error being branched on — whose done edge leaves the loop and returns *TimeoutError/*ContextCanceled/*ContextDone; every context handed to a retrying callee by a Handler constructor is result #0 of GetTimeoutContext, which returns a context with a deadline (or an already cancelled one) on every path; ParseError and ConvertFileHandlerError map the timeout types to the lock-timeout error",
+		Controls: []string{"CtlRetryForever", "CtlRetryIgnoresWaitHelper"},
 		Run:      ruleLock5})
 	Register(&Rule{ID: "R-LOCK-6", Props: []string{"C09"}, Floor: 25,
 		Doc:      "handler lifetime: the result of Container.CreateHandlerForUpdate/ForCreate is stored in FileInfo.Handler before any return and, in the creating function, closed only on paths that end in an error return; Container.Close/Commit/CloseWithErrors/CloseAll*, Handler.close/commit/closeWithErrors and closeIsolatedHandler are called only from the frozen list of commit/rollback/release functions and creators' error paths",
@@ -784,87 +784,35 @@ func ruleLock5(c *Ctx) {
 				nLoops++
 			}
 			key := c.KeyAt(fn, "retry loop around "+acqLabel(c, k))
-			// selects with a ctx.Done() state
-			type doneSel struct {
-				sel   *ssa.Select
-				state int
-			}
-			var sels []doneSel
-			for _, b := range fn.Blocks {
-				for _, in := range b.Instrs {
-					if s, ok := in.(*ssa.Select); ok {
-						for i, st := range s.States {
-							if st.Dir == types.RecvOnly && isCtxDone(st.Chan) {
-								sels = append(sels, doneSel{s, i})
-							}
-						}
-					}
-				}
-			}
-			isSel := func(in ssa.Instruction) bool {
-				for _, s := range sels {
-					if in == s.sel {
+			// gates: selects with a ctx.Done() case, and calls of helpers that wait
+			// on such a select on every path and fail exactly when the context is done
+			gates := doneGates(c, fn, allowed)
+			isGate := func(in ssa.Instruction) bool {
+				for _, g := range gates {
+					if in == g.at {
 						return true
 					}
 				}
 				return false
 			}
-			if reachAfter(k, k, isSel, nil) {
-				c.Bad(key, c.Pos(k), "a cycle through this call crosses no select with a `<-ctx.Done()` case: when the lock is never released (stale .lock file, crashed process) the statement retries forever instead of failing with the lock-timeout error")
+			if reachAfter(k, k, isGate, nil) {
+				c.Bad(key, c.Pos(k), "a cycle through this call crosses no select with a `<-ctx.Done()` case (neither directly nor in a helper that always waits on one): when the lock is never released (stale .lock file, crashed process) the statement retries forever instead of failing with the lock-timeout error")
 				continue
 			}
 			bad := ""
-			for _, s := range sels {
-				// the edge taken when the done state fired: index == state
-				idxV := extractOfSelect(s.sel, 0)
-				var doneSucc *ssa.BasicBlock
-				for _, b := range fn.Blocks {
-					if len(b.Instrs) == 0 {
-						continue
-					}
-					iff, ok := b.Instrs[len(b.Instrs)-1].(*ssa.If)
-					if !ok {
-						continue
-					}
-					bo, ok := iff.Cond.(*ssa.BinOp)
-					if !ok || bo.Op != token.EQL || bo.X != idxV {
-						continue
-					}
-					if v, ok := core.ConstInt(bo.Y); ok && int(v) == s.state {
-						doneSucc = b.Succs[0]
-					}
-				}
-				if doneSucc == nil {
-					bad = "the branch taken when ctx.Done() fires cannot be identified"
+			for _, g := range gates {
+				if g.doneSucc == nil {
+					bad = "the branch taken when ctx.Done() fires cannot be identified at " + c.Pos(g.at)
 					continue
 				}
-				if reachFromBlock(doneSucc, k, nil, nil) {
+				if reachFromBlock(g.doneSucc, k, nil, nil) {
 					bad = "after ctx.Done() fired the loop can still retry (the done case does not leave the loop)"
 				}
-				walkCFG(doneSucc, 0, nil, func(in ssa.Instruction) bool {
-					r, ok := in.(*ssa.Return)
-					if !ok {
-						return true
-					}
-					if _, nonNil := errOperandKinds(c, r); !nonNil {
-						bad = "the return at " + c.Pos(r) + " after ctx.Done() may report success"
-						return true
-					}
-					ei := core.ErrorResultIndex(fn)
-					for _, v := range core.ReturnOperand(r, ei) {
-						if v == nil {
-							continue
-						}
-						for t := range errTypeSet(v, 0) {
-							if !allowed[t] {
-								bad = "the return at " + c.Pos(r) + " after ctx.Done() yields " + t + ", which the callers do not map to the lock-timeout / cancellation errors"
-							}
-						}
-					}
-					return true
-				})
+				if why := doneReturnsOK(c, fn, g.doneSucc, allowed); why != "" {
+					bad = why
+				}
 			}
-			c.Check(bad == "", key, c.Pos(k), "every cycle crosses a select on ctx.Done(); its done edge leaves the loop with *TimeoutError / *ContextCanceled / *ContextDone", bad)
+			c.Check(bad == "", key, c.Pos(k), "every cycle crosses a select on ctx.Done() (directly or in a wait helper); its done edge leaves the loop with *TimeoutError / *ContextCanceled / *ContextDone", bad)
 		}
 	}
 	if nLoops == 0 {
@@ -952,6 +900,177 @@ func ruleLock5(c *Ctx) {
 		call, ok := v.(*ssa.Call)
 		return ok && calleeIn(p, call, "lib/query.NewFileLockTimeoutError"), valueLabel(v)
 	}, "NewFileLockTimeoutError")
+}
+
+// doneGate is a point of a function where execution waits on ctx.Done(): a
+// select instruction, or the call of a wait helper. doneSucc is the block
+// entered when the context was done.
+type doneGate struct {
+	at       ssa.Instruction
+	doneSucc *ssa.BasicBlock
+}
+
+// selectGates lists the selects of fn that have a `<-ctx.Done()` case.
+func selectGates(fn *ssa.Function) []doneGate {
+	var out []doneGate
+	for _, b := range fn.Blocks {
+		for _, in := range b.Instrs {
+			s, ok := in.(*ssa.Select)
+			if !ok {
+				continue
+			}
+			for i, st := range s.States {
+				if st.Dir != types.RecvOnly || !isCtxDone(st.Chan) {
+					continue
+				}
+				g := doneGate{at: s}
+				idxV := extractOfSelect(s, 0)
+				for _, b2 := range fn.Blocks {
+					if len(b2.Instrs) == 0 {
+						continue
+					}
+					iff, ok := b2.Instrs[len(b2.Instrs)-1].(*ssa.If)
+					if !ok {
+						continue
+					}
+					bo, ok := iff.Cond.(*ssa.BinOp)
+					if !ok || bo.Op != token.EQL || bo.X != idxV {
+						continue
+					}
+					if v, ok := core.ConstInt(bo.Y); ok && int(v) == i {
+						g.doneSucc = b2.Succs[0]
+					}
+				}
+				out = append(out, g)
+			}
+		}
+	}
+	return out
+}
+
+// doneReturnsOK: every return reachable from the done edge is an error of one
+// of the allowed types. Returns a description of the first offender or "".
+func doneReturnsOK(c *Ctx, fn *ssa.Function, from *ssa.BasicBlock, allowed map[string]bool) string {
+	bad := ""
+	walkCFG(from, 0, nil, func(in ssa.Instruction) bool {
+		r, ok := in.(*ssa.Return)
+		if !ok {
+			return true
+		}
+		if _, nonNil := errOperandKinds(c, r); !nonNil {
+			bad = "the return at " + c.Pos(r) + " after ctx.Done() may report success"
+			return true
+		}
+		ei := core.ErrorResultIndex(fn)
+		for _, v := range returnOperandDeep(r, ei) {
+			if v == nil {
+				continue
+			}
+			for t := range errTypeSet(v, 0) {
+				if t == "nil" {
+					continue // shown non-nil at this return
+				}
+				if !allowed[t] {
+					bad = "the return at " + c.Pos(r) + " after ctx.Done() yields " + t + ", which the callers do not map to the lock-timeout / cancellation errors"
+				}
+			}
+		}
+		return true
+	})
+	return bad
+}
+
+var waitHelperMemo = map[*ssa.Function]int{}
+
+// isWaitHelper: a csvq function with a context parameter and an error result
+// that crosses a select on that context's Done() on every path to a return,
+// and whose returns behind the done edge are errors of the allowed types: it
+// returns non-nil whenever the context is done.
+func isWaitHelper(c *Ctx, w *ssa.Function, allowed map[string]bool) bool {
+	if w == nil || w.Blocks == nil || c.P.Name(w) == w.String() || core.ErrorResultIndex(w) < 0 {
+		return false
+	}
+	switch waitHelperMemo[w] {
+	case 1:
+		return true
+	case 2:
+		return false
+	}
+	waitHelperMemo[w] = 2
+	var ctxPar ssa.Value
+	for _, par := range w.Params {
+		if isCtxType(par.Type()) {
+			ctxPar = par
+		}
+	}
+	if ctxPar == nil {
+		return false
+	}
+	var gates []doneGate
+	for _, g := range selectGates(w) {
+		sel := g.at.(*ssa.Select)
+		onParam := false
+		for _, st := range sel.States {
+			if call, ok := st.Chan.(*ssa.Call); ok && isCtxDone(st.Chan) && hasOrigin(call.Call.Value, ctxPar) {
+				onParam = true
+			}
+		}
+		if onParam {
+			gates = append(gates, g)
+		}
+	}
+	if len(gates) == 0 {
+		return false
+	}
+	isSel := func(in ssa.Instruction) bool {
+		for _, g := range gates {
+			if in == g.at {
+				return true
+			}
+		}
+		return false
+	}
+	if len(returnsWithout(w, nil, isSel, nil)) > 0 {
+		return false // a path returns without having waited
+	}
+	for _, g := range gates {
+		if g.doneSucc == nil || doneReturnsOK(c, w, g.doneSucc, allowed) != "" {
+			return false
+		}
+	}
+	waitHelperMemo[w] = 1
+	return true
+}
+
+// doneGates lists the selects of fn plus the calls of wait helpers whose error
+// result is branched on; for those the done edge is the error edge.
+func doneGates(c *Ctx, fn *ssa.Function, allowed map[string]bool) []doneGate {
+	gates := selectGates(fn)
+	for _, k := range core.Calls(fn) {
+		call, ok := k.(*ssa.Call)
+		if !ok || !isWaitHelper(c, core.StaticCallee(k), allowed) {
+			continue
+		}
+		hasCtx := false
+		for _, a := range call.Call.Args {
+			if isCtxType(a.Type()) {
+				hasCtx = true
+			}
+		}
+		if !hasCtx {
+			continue
+		}
+		g := doneGate{at: call}
+		for _, b := range fn.Blocks {
+			for _, s := range b.Succs {
+				if errKnown(edgeFactOnly(b, s), k, false) {
+					g.doneSucc = s
+				}
+			}
+		}
+		gates = append(gates, g)
+	}
+	return gates
 }
 
 func extractOfSelect(s *ssa.Select, idx int) ssa.Value {
@@ -1169,25 +1288,93 @@ func ruleLock6(c *Ctx) {
 					if !mine {
 						continue
 					}
-					if f != fn {
-						bad = "closed inside a closure at " + c.Pos(ck) + " (deferred closes run on the success path too)"
-						continue
-					}
 					if _, isDefer := ck.(*ssa.Defer); isDefer {
 						bad = "close deferred at " + c.Pos(ck) + ": it runs on the success path too"
 						continue
 					}
-					walkAfter(ck, nil, func(in ssa.Instruction) bool {
-						if r, ok := in.(*ssa.Return); ok {
-							if allNil, _ := errOperandKinds(c, r); allNil {
-								bad = "after the close at " + c.Pos(ck) + " the success return at " + c.Pos(r) + " is reachable: the lock is released while the transaction continues, so another process can update the file before COMMIT (lost update)"
-							}
+					// the points of the creating function at which this close executes:
+					// the call itself, or — for a close inside a local closure that is
+					// only ever called directly — the calls of that closure
+					points := []ssa.CallInstruction{ck}
+					if f != fn {
+						sites, ok := localClosureCalls(fn, f)
+						if !ok {
+							bad = "closed inside a closure at " + c.Pos(ck) + " that is deferred, started, stored or passed on (deferred closes run on the success path too)"
+							continue
 						}
-						return true
-					})
+						points = sites
+					}
+					for _, pt := range points {
+						walkAfter(pt, nil, func(in ssa.Instruction) bool {
+							if r, ok := in.(*ssa.Return); ok {
+								if allNil, _ := errOperandKinds(c, r); allNil {
+									bad = "after the close at " + c.Pos(pt) + " the success return at " + c.Pos(r) + " is reachable: the lock is released while the transaction continues, so another process can update the file before COMMIT (lost update)"
+								}
+							}
+							return true
+						})
+					}
 				}
 			}
 			c.Check(bad == "", keyC, c.Pos(k), "every close of this handler in the creating function is followed by error returns only", bad)
 		}
 	}
+}
+
+// localClosureCalls returns the call sites in fn of its local closure clo when
+// every use of the closure value is a direct call (`f := func(){…}; … f()`).
+// ok=false when the closure is deferred, started with go, stored, passed as an
+// argument, or nested deeper than one level.
+func localClosureCalls(fn, clo *ssa.Function) (sites []ssa.CallInstruction, ok bool) {
+	if clo.Parent() != fn {
+		return nil, false
+	}
+	ok = true
+	var visit func(v ssa.Value)
+	seen := map[ssa.Value]bool{}
+	visit = func(v ssa.Value) {
+		if seen[v] || v.Referrers() == nil {
+			return
+		}
+		seen[v] = true
+		for _, r := range *v.Referrers() {
+			switch x := r.(type) {
+			case *ssa.Call:
+				if x.Call.Value == v && x.Parent() == fn {
+					sites = append(sites, x)
+				} else {
+					ok = false
+				}
+			case *ssa.DebugRef:
+			case *ssa.Store:
+				// `var f func(); f = func(){…}`: follow the loads of a purely local cell
+				al, isAlloc := x.Addr.(*ssa.Alloc)
+				if !isAlloc || x.Val != v || cellWrittenElsewhere(al) {
+					ok = false
+					continue
+				}
+				for _, ar := range *al.Referrers() {
+					switch y := ar.(type) {
+					case *ssa.UnOp:
+						visit(y)
+					case *ssa.Store, *ssa.DebugRef:
+					default:
+						ok = false
+					}
+				}
+			default:
+				ok = false // defer, go, argument, phi, capture …
+			}
+		}
+	}
+	found := false
+	for _, b := range fn.Blocks {
+		for _, in := range b.Instrs {
+			if mc, isMC := in.(*ssa.MakeClosure); isMC && mc.Fn == clo {
+				found = true
+				visit(mc)
+			}
+		}
+	}
+	return sites, ok && found && len(sites) > 0
 }
